@@ -189,15 +189,25 @@ fn real_stub_sb() -> Value {
     })
 }
 
+const NO_SB: &str = "harness error: engine::get_best_move no longer has the signature the S-B harness calls (board, table, start, allowance, &Sender<BoardState>); this build is the fallback without the S-B scenario family";
+
 pub fn run_sb_check(id: &str, tier: &str, seed: u64) -> i32 {
     let t0 = std::time::Instant::now();
     let quick = tier == "quick";
+    if !crate::sb::AVAILABLE && id != "C18" {
+        eprintln!("{} - {} cannot be decided on this tree", NO_SB, id);
+        return 2;
+    }
+    if !crate::sb::AVAILABLE {
+        eprintln!("{} - only the session part (stream view) of C18 runs; a clean result is reported as exit 2, not as a pass", NO_SB);
+    }
     let (mut acc, runs): (Acc, u64) = match id {
         "C07" | "C18" => {
             // most positions at D = 2 (cheap, exhaustive), some at D = 3 (D = 4 in thorough: null move active)
             // a few positions at D = 4 even in the quick tier: null-move pruning (remaining depth >= 3) only exists from iteration 4 on
             let (n2, n3, n4) = if quick { (240, 60, 8) } else { (8_000, 2_000, 200) };
             let (c07, c18) = (id == "C07", id == "C18");
+            let (n2, n3, n4) = if crate::sb::AVAILABLE { (n2, n3, n4) } else { (0, 0, 0) };
             let mut a = report::par_acc(n2, |r| sb_checks::run_c07_c18(seed, r, &format!("{}-d2", id), c07, c18, 2, 1500));
             a.merge(report::par_acc(n3, |r| sb_checks::run_c07_c18(seed, r, &format!("{}-d3", id), c07, c18, 3, 1500)));
             if n4 > 0 {
@@ -205,10 +215,10 @@ pub fn run_sb_check(id: &str, tier: &str, seed: u64) -> i32 {
             }
             // deep mode: D = 5 (killer moves, null-move pruning and re-searches all active), a
             // sampled handful of expiry points per position
-            let n5 = if quick { 16 } else { 400 };
+            let n5 = if !crate::sb::AVAILABLE { 0 } else if quick { 16 } else { 400 };
             a.merge(report::par_acc(n5, |r| sb_checks::run_c07_c18(seed, r, &format!("{}-d5", id), c07, c18, 5, 1)));
             // closed shuffles: all iterations up to MAX_DEPTH (per-ply tables at large ply numbers)
-            let nsh = if quick { 12 } else { 240 };
+            let nsh = if !crate::sb::AVAILABLE { 0 } else if quick { 12 } else { 240 };
             a.merge(report::par_acc(nsh, |r| sb_checks::run_c07_c18_shuffle(seed, r, &format!("{}-shuffle", id), c07, c18)));
             if c18 {
                 // stream view over whole sessions (what a GUI sees between go and bestmove)
@@ -279,7 +289,11 @@ pub fn run_c10(tier: &str, seed: u64) -> i32 {
         sc::run(seed, r, "C10", judge, &z, 60)
     });
     let rec_evals = acc.evals;
-    acc.merge(report::par_acc(n2, |r| sb_checks::run_c10_search(seed, r)));
+    if crate::sb::AVAILABLE {
+        acc.merge(report::par_acc(n2, |r| sb_checks::run_c10_search(seed, r)));
+    } else {
+        eprintln!("{} - clause (ii) of C10 is checked through sessions only; a clean result is reported as exit 2, not as a pass", NO_SB);
+    }
     // (i) again, through the real command loop: several position commands in one session
     let n3: u64 = if quick { 8_000 } else { 250_000 };
     acc.merge(report::par_acc(n3, |r| sa_checks::run_c10_session(seed, r)));
